@@ -11,11 +11,11 @@ PROPERTY = "C12"
 LEVEL = "exploration"
 EXHAUSTIVE = {"quick": True, "thorough": True}
 RULE = (
-    "operation alphabet (25): register(event in {a,b}, priority in {-1,0,5}, stops or not) = 12, dispatch(event in {a,b,c}) "
+    "operation alphabet (27): register(event in {a,b}, priority in {-1,0,5}, stops or not) = 12, dispatch(event in {a,b,c}) "
     "= 3, register a listener that itself registers another listener when called (event a/b) = 2, query(get_listeners(a), "
     "get_listeners(b), get_listeners()) = 3 (queries fill the dispatcher's sort cache, so they are part of the history), "
     "dispatch without an event object (a/b) = 2, register a listener that raises (its exception ends the dispatch and reaches the caller; the dispatcher must "
-    "work as before afterwards) = 1, register a bound method of an object nobody else refers to (plain / high priority and stopping) = 2. "
+    "work as before afterwards) = 1, register a bound method of an object nobody else refers to (plain / high priority and stopping) = 2, register a listener that registers another one at a higher priority than its own = 1, dispatch with an Event subclass that overrides stop_propagation / is_propagation_stopped with its own state = 1. Scale part: 1350 listeners on one event (1300 at one priority) and 60 dispatches in a row ending in a listener's exception. "
     "Every sequence up to length L is run from scratch on a new EventDispatcher: each dispatch's invocation log is compared "
     "with the model, and after the last step every query (has_listeners per event and overall, get_listeners per event and "
     "overall, get_listener_priority of every listener for every event) is compared. Random sequences of length 6-40 on top. "
@@ -23,8 +23,8 @@ RULE = (
     "dispatch/query of that event or a stopping listener; distinct by operation tuple."
 )
 BOUND = {
-    "quick": "all 406900 sequences of length <= 4 over 25 operations; 3000 random sequences of length 6-40",
-    "thorough": "all 10172525 sequences of length <= 5 over 25 operations; 400000 sampled of length 6; 100000 random of length 7-40",
+    "quick": "all 551881 sequences of length <= 4 over 27 operations; 3000 random sequences of length 6-40",
+    "thorough": "all 14900788 sequences of length <= 5 over 27 operations; 400000 sampled of length 6; 100000 random of length 7-40",
 }
 ASSUMPTIONS = [
     "whether a listener registered during a dispatch also joins the dispatch in progress is not stated and not asserted; it must take part in the next one",
@@ -44,6 +44,9 @@ OPS += [("query", "a"), ("query", "b"), ("query", None)]
 # dispatch without an event object (the dispatcher makes one), a listener that raises, listeners that are bound methods
 # of objects nobody else refers to
 OPS += [("dispatch-default", "a"), ("dispatch-default", "b"), ("reg-raises", "a"), ("reg-method", "a", 0, False), ("reg-method", "a", 5, True)]
+# a listener that, when called, registers another one for the same event at a HIGHER priority than its own;
+# a dispatch with an event object of a subclass that keeps its own 'stopped' state behind the two public methods
+OPS += [("reg-nested-high", "a"), ("dispatch-subclass", "a")]
 
 
 class DispatchBudgetExceeded(BaseException):
@@ -66,7 +69,7 @@ class Run(object):
         self.budget = 10 ** 9
         self.method_ids = set()
 
-    def make(self, lid, stops, nested_event=None, raises=False, method=False):
+    def make(self, lid, stops, nested_event=None, raises=False, method=False, nested_priority=0):
         run = self
 
         def listener(event, event_name, dispatcher):
@@ -76,7 +79,7 @@ class Run(object):
             if dispatcher is not run.d or not isinstance(event_name, str):
                 run.bad_args.append((lid, event_name))
             if nested_event is not None:
-                run.register(nested_event, 0, False)
+                run.register(nested_event, nested_priority, False)
             if raises:
                 raise ListenerFailed(lid)
             if stops:
@@ -90,9 +93,9 @@ class Run(object):
             return Subscriber().on_event  # the only reference to the subscriber is the bound method itself
         return listener
 
-    def register(self, ev, pr, stops, nested=None, raises=False, method=False):
+    def register(self, ev, pr, stops, nested=None, raises=False, method=False, nested_priority=0):
         lid = len(self.model)
-        fn = self.make(lid, stops, nested, raises, method)
+        fn = self.make(lid, stops, nested, raises, method, nested_priority)
         self.objs[lid] = fn if not method else None  # bound methods are compared by equality, and not kept alive here
         if method:
             self.method_ids.add(lid)
@@ -119,6 +122,84 @@ class Run(object):
         return bool(calls) and bool(self.model[calls[-1]].get("raises"))
 
 
+def subclass_event(Event):
+    class OwnStateEvent(Event):
+        """Overrides both public methods consistently and keeps the state in its own attribute."""
+
+        def __init__(self):
+            Event.__init__(self)
+            self.stopped_because = None
+
+        def stop_propagation(self):
+            self.stopped_because = "a listener asked for it"
+
+        def is_propagation_stopped(self):
+            return self.stopped_because is not None
+
+    return OwnStateEvent()
+
+
+def run_scale(sh, Dispatcher, Event):
+    """Many listeners and many dispatches on one dispatcher: 1300 listeners at one priority between others, and a
+    listener that raises in 60 dispatches in a row before the dispatcher is used normally again."""
+    # -- many listeners ---------------------------------------------------------
+    d = Dispatcher()
+    log = []
+    expected = []
+    plan_ = [(1, 1300), (0, 40), (2, 3), (1, 5), (-1, 2)]
+    seq = 0
+    regs = []
+    for pr, n in plan_:
+        for _ in range(n):
+            lid = seq
+            seq += 1
+
+            def listener(event, name, disp, lid=lid):
+                log.append(lid)
+
+            d.add_listener("big", listener, pr)
+            regs.append((pr, lid))
+    expected = [lid for pr, lid in sorted(regs, key=lambda x: (-x[0], x[1]))]
+    record = {"kind": "scale", "listeners": plan_}
+    sh.case(("scale", "many-listeners"), True)
+    d.dispatch("big", Event())
+    sh.count("dispatches")
+    sh.count("listener_calls", len(log))
+    if log != expected:
+        k = next((i for i in range(min(len(log), len(expected))) if log[i] != expected[i]), min(len(log), len(expected)))
+        sh.violate("dispatch-order", record, "with %d listeners the call at position %d is listener #%r, expected #%r (%d calls, %d expected)" % (
+            len(regs), k, log[k] if k < len(log) else None, expected[k] if k < len(expected) else None, len(log), len(expected)))
+    # -- many failing dispatches --------------------------------------------------
+    d = Dispatcher()
+    calls = []
+
+    def failing(event, name, disp):
+        calls.append("failing")
+        raise ListenerFailed("always")
+
+    d.add_listener("boom", failing, 0)
+    d.add_listener("fine", lambda e, n, dd: calls.append("fine"), 0)
+    record = {"kind": "scale", "failing_dispatches": 60}
+    sh.case(("scale", "many-failures"), True)
+    for i in range(60):
+        try:
+            d.dispatch("boom", Event())
+        except ListenerFailed:
+            pass
+        except Exception as e:
+            sh.violate("dispatch-raises", record, "dispatch #%d of an event whose listener raises: %r reached the caller instead of the listener's exception" % (i, e))
+            return
+    del calls[:]
+    try:
+        d.dispatch("fine", Event())
+    except Exception as e:
+        sh.violate("dispatch-raises", record, "after 60 dispatches that ended in a listener's exception, a normal dispatch raised %r" % (e,))
+        return
+    sh.count("dispatches", 61)
+    if calls != ["fine"]:
+        sh.violate("dispatch-order", record, "after 60 failed dispatches a normal dispatch called %r" % (calls,))
+
+
 def execute(sh, Dispatcher, Event, ops, record):
     r = Run(Dispatcher, Event)
     touched = set()  # events dispatched or queried so far
@@ -128,6 +209,8 @@ def execute(sh, Dispatcher, Event, ops, record):
             r.register(op[1], op[2], op[3])
         elif op[0] == "reg-nested":
             r.register(op[1], 0, False, nested=op[1])
+        elif op[0] == "reg-nested-high":
+            r.register(op[1], 0, False, nested=op[1], nested_priority=5)
         elif op[0] == "reg-raises":
             r.register(op[1], 0, False, raises=True)
         elif op[0] == "reg-method":
@@ -139,7 +222,7 @@ def execute(sh, Dispatcher, Event, ops, record):
                 sh.violate("query-raises", record, "get_listeners(%r) raised %r at step %d" % (op[1], e, n))
                 return interesting
             touched.update(EVENTS if op[1] is None else [op[1]])
-        elif op[0] in ("dispatch", "dispatch-default"):
+        elif op[0] in ("dispatch", "dispatch-default", "dispatch-subclass"):
             ev = op[1]
             before = len(r.model)
             want = r.expected_calls(ev, before)
@@ -148,7 +231,7 @@ def execute(sh, Dispatcher, Event, ops, record):
                 interesting = True
             r.log = []
             r.budget = 4 * before + 20  # listeners registered when the dispatch starts
-            event = Event() if op[0] == "dispatch" else None
+            event = Event() if op[0] == "dispatch" else (subclass_event(Event) if op[0] == "dispatch-subclass" else None)
             failed = False
             try:
                 ret = r.d.dispatch(ev, event) if event is not None else r.d.dispatch(ev)
@@ -236,6 +319,7 @@ def run(sh, spec):
         if spec["maxlen"] == 0:
             execute(sh, EventDispatcher, Event, (), {"ops": []})
             sh.case((), False)
+            run_scale(sh, EventDispatcher, Event)
             return
         firsts = range(spec["first"], min(spec["first"] + spec.get("step", 3), len(OPS)))
         for n in range(1, spec["maxlen"] + 1):
